@@ -37,6 +37,15 @@ func actorDoc(id, inbox string) J {
 }
 
 // a world with one local actor (alice), a second local one (dave), two remote actors and a few owned things
+// the application's stored inboxes: dave's always; sometimes also the sender's own (alice)
+func (g *sgen) storedInboxes() J {
+	m := J{dave: daveInbox}
+	if g.r.chance(25) {
+		m[alice] = aliceInbox
+	}
+	return m
+}
+
 func (g *sgen) baseWorld() J {
 	w := J{
 		"owned": []interface{}{alice, dave, aliceInbox, aliceOutbox, aliceFollowers, aliceFollowing, aliceLiked,
@@ -52,7 +61,7 @@ func (g *sgen) baseWorld() J {
 			local("/activities/f1"): J{"type": "Follow", "id": local("/activities/f1"), "actor": alice, "object": bob},
 			aliceFollowers:     J{"type": "Collection", "id": aliceFollowers, "items": []interface{}{carol}},
 		},
-		"inboxFor":       J{dave: daveInbox},
+		"inboxFor":       g.storedInboxes(),
 		"actorForOutbox": J{aliceOutbox: alice, dave + "/outbox": dave},
 		"actorForInbox":  J{aliceInbox: alice, daveInbox: dave},
 		"outboxForInbox": J{aliceInbox: aliceOutbox, daveInbox: dave + "/outbox"},
@@ -143,6 +152,9 @@ func (g *sgen) inboxActivity(ty string, world J) J {
 		actors = append(actors, g.ref(who, "Person", g.r.chance(25)))
 	}
 	a["actor"] = asList(actors)
+	if g.r.chance(4) {
+		a["actor"] = []interface{}{} // present but empty: nobody to ask the block check about
+	}
 	no := 1 + g.r.intn(3)
 	if g.r.chance(8) {
 		no = 0
